@@ -136,7 +136,18 @@ func classifyRace(st string) (class, detail string, lib bool) {
 		}
 	}
 	var parts []string
+	seam := false
 	for _, a := range accs {
+		// the innermost frame says whose memory was touched: an access made by the injected seam
+		// itself (verifsim.Y reading its hook variable, say) or by the scheduler is an access to
+		// the harness's own memory, whatever library function called the seam – and both accesses
+		// of a report are to the same address. Such a report is never pinned on the library.
+		if len(a.frames) > 0 {
+			f0 := a.frames[0]
+			if strings.HasPrefix(f0, libPrefix+"verifsim") || (strings.HasPrefix(f0, "verif.local/sim") && !strings.HasPrefix(f0, "verif.local/sim/gen.")) {
+				seam = true
+			}
+		}
 		top, firstOther, fingerprint := "", "", false
 		for _, f := range a.frames {
 			if strings.HasPrefix(f, "verif.local/sim/gen.") {
@@ -171,5 +182,8 @@ func classifyRace(st string) (class, detail string, lib bool) {
 		}
 	}
 	sort.Strings(parts)
+	if seam {
+		lib = false
+	}
 	return strings.Join(parts, "|"), strings.Join(det, "\n"), lib
 }
